@@ -491,15 +491,10 @@ namespace
 
 int main(int argc, char** argv)
 {
-    Args a = parse_args(argc, argv);
-    if (a.property != "C12" && a.property != "C13")
-    {
-        std::fprintf(stderr, "spl harness serves C12 and C13\n");
-        return 2;
-    }
-    return run_sharded(a,
+    return sse_main(argc, argv, { "C12", "C13" },
                        [&](Ctx& ctx)
                        {
+                           const Args& a = ctx.args;
                            if (ctx.replay_mode)
                            {
                                GridSpec g;
